@@ -278,6 +278,36 @@ def r04_3(chk, facts):
         else: chk.fail('R04.3', site, fn['file'], fn['l'], '%s does not emit a bigdec string under `lossless_number_`' % fn['n'], None, fn['q'])
     chk.require(nfrac >= 1, 'R04.3: no bigdec-tagged string event found in basic_json_parser')
 
+def r04_8(chk, tier, units=('core', 'cbor', 'msgpack', 'ubjson', 'bson', 'csv')):
+    """Every constructor of a parser or encoder copies each option into the member that is named after it."""
+    chk.rule('R04.8', 'option wiring: a constructor initialiser `member_(options.accessor())` copies the option into the member of the same name '
+                      '(`accessor_`, or `has_accessor_` for a flag derived from it), in every constructor overload; a sibling constructor '
+                      'that reads a neighbouring accessor (lossless_bignum_ from lossless_number()) makes the behaviour depend on which '
+                      'entry point built the parser', floor=60)
+    n = 0
+    for unit in units:
+        facts = F.load([unit], tier)
+        if unit not in chk.units: chk.units.append(unit)
+        seen = set()
+        for f in facts.functions:
+            if f.get('fk') != 'CXXConstructor' or not f.get('inits') or f.get('dep') or (f['file'], f['l']) in seen: continue
+            seen.add((f['file'], f['l']))
+            opts = set(p_['id'] for p_ in f['params'] if 'options' in F.tname(f, p_['t']))
+            if not opts: continue
+            for ini in f['inits']:
+                m = ini.get('m'); e = ini.get('init')
+                if not m or e is None: continue
+                calls = [c for c in A.walk(e) if c.get('k') == 'CXXMemberCallExpr' and (A.strip(c.get('obj'), casts=True) or {}).get('id') in opts]
+                if len(calls) != 1: continue
+                acc = A.callee_name(calls[0]); n += 1
+                site = U.site(f, 'init %s' % m)
+                if m.rstrip('_') in (acc, 'has_' + acc): chk.ok('R04.8', site, {'member': m, 'accessor': acc} if n % 20 == 1 else None)
+                else:
+                    chk.analysed(f)
+                    chk.fail('R04.8', site, f['file'], calls[0].get('l') or f['l'], 'constructor of %s (line %s) initialises `%s` from options.%s(): the member is named after another option' % (
+                        A.strip_targs(f.get('cls') or f['q']).split('::')[-1], f['l'], m, acc), None, f['q'])
+    chk.require(n >= 60, 'R04.8: only %d option initialisers found' % n)
+
 def r04_4(chk, facts):
     """Multi-word addition/subtraction of basic_bigint: every wrapping word operation feeds the carry/borrow."""
     chk.rule('R04.4', 'bigint carry capture: in the word loops of basic_bigint::operator+= and operator-=, every `x = a + b` (resp. `a - b`) on words is '
@@ -446,6 +476,7 @@ def run(chk, tier, only_rule=None):
     r04_1(chk, facts)
     r04_2(chk, facts)
     r04_3(chk, facts)
+    r04_8(chk, tier)
     r04_4(chk, facts)
     r04_5(chk, facts)
     r04_6(chk, facts)
